@@ -697,7 +697,10 @@ def c11(ck):
     # "seen either entirely or not at all": writers redefine globals while readers look them up (nested scopes,
     # closures, macro expansions, futures); TraceRW.tla validates the log as a linearizable single-writer register
     rw = os.path.join(ck.scratch, "globals.ndjson")
-    ck.harness(["globals", "-n", str(80 if q else 1500), "-seed", str(ck.seed), "-out", rw], timeout=1200)
+    gout = ck.harness(["globals", "-n", str(80 if q else 1500), "-seed", str(ck.seed), "-out", rw], timeout=1200)
+    for h in gout[:-1]:
+        if "hang" in h:
+            ck.report("hang:global-definitions", h["hang"], {"case": {"kind": "globals-scenario", "seed": ck.seed, "scenario": h["scenario"]}})
     rej, t = validate_trace(ck, "TraceRW", rw, timeout=1800)
     rwrows = [json.loads(l) for l in open(rw)]
     ck.traces_validated += sum(1 for r_ in rwrows if r_["ev"] == "begin")
@@ -725,8 +728,9 @@ def c11(ck):
     rest_ = [c_ for c_ in r.cases if c_ not in derive]
     ck.harness(["replay", "-repeat", "2"], derive + rest_[:: (3 if q else 1)], race=True, timeout=3000,
                env={"GORACE": "log_path=%s halt_on_error=0 exitcode=0" % racelog})
-    ck.harness(["globals", "-n", str(40 if q else 400), "-seed", str(ck.seed + 7), "-out", os.path.join(ck.scratch, "globals-race.ndjson")],
-               race=True, timeout=3000, env={"GORACE": "log_path=%s halt_on_error=0 exitcode=0" % racelog})
+    if not any("hang" in h for h in gout[:-1]):
+        ck.harness(["globals", "-n", str(40 if q else 400), "-seed", str(ck.seed + 7), "-out", os.path.join(ck.scratch, "globals-race.ndjson")],
+                   race=True, timeout=3000, env={"GORACE": "log_path=%s halt_on_error=0 exitcode=0" % racelog})
     races = parse_race_reports(glob.glob(racelog + "*"))
     seen = set()
     for key, text in races:
